@@ -2,6 +2,7 @@
 //!
 //! Schema: {"t":"myst"} {"t":"null"} {"t":"bool","b":..} {"t":"num","c":"fin","n":k} (= k/64)
 //! {"t":"num","c":"nzero"|"pinf"|"ninf"|"nan"|"inexact"} {"t":"num","c":"big","s":+-1,"d":"digits"}
+//! {"t":"num","c":"tiny","s":+-1,"d":"0.00ddd"} (non-zero, magnitude below 1/100)
 //! {"t":"str","s":".."} {"t":"str1"} {"t":"arr","a":[..],"d":[{"k":key,"v":val}..]}
 //! key: {"k":"myst"} {"k":"null"} {"k":"bool","b":..} {"k":"str","s":".."}
 //! Place-holder characters in model strings: `~` is U+00E9 (two bytes).
@@ -30,6 +31,17 @@ pub fn num_of(j: &J) -> f64 {
             let d = j["d"].as_str().unwrap();
             let f: f64 = d.parse().unwrap();
             assert_eq!(format!("{}", f), d, "model big number is not exactly a double");
+            if j["s"].as_i64().unwrap() < 0 {
+                -f
+            } else {
+                f
+            }
+        }
+        "tiny" => {
+            let d = j["d"].as_str().unwrap();
+            let f: f64 = d.parse().unwrap();
+            assert_eq!(format!("{}", f), d, "model tiny number is not printed back digit for digit");
+            assert!(f > 0.0 && f < 0.01, "model tiny number out of its band");
             if j["s"].as_i64().unwrap() < 0 {
                 -f
             } else {
@@ -130,6 +142,8 @@ pub fn num_json(f: f64) -> J {
             json!({"t":"num","c":"fin","n":scaled as i64})
         } else if f.fract() == 0.0 {
             json!({"t":"num","c":"big","s": if f < 0.0 {-1} else {1},"d":format!("{}", f.abs())})
+        } else if f.abs() < 0.01 {
+            json!({"t":"num","c":"tiny","s": if f < 0.0 {-1} else {1},"d":format!("{}", f.abs())})
         } else {
             json!({"t":"num","c":"inexact","text":format!("{}", f)})
         }
@@ -150,7 +164,7 @@ pub fn matches(exp: &J, obs: &J) -> bool {
             match exp["c"].as_str().unwrap() {
                 "inexact" => true,
                 "fin" => obs["c"] == "fin" && obs["n"] == exp["n"],
-                "big" => obs["c"] == "big" && obs["s"] == exp["s"] && obs["d"] == exp["d"],
+                "big" | "tiny" => obs["c"] == exp["c"] && obs["s"] == exp["s"] && obs["d"] == exp["d"],
                 c => obs["c"] == c,
             }
         }
